@@ -72,7 +72,8 @@ Definition connectedness (cs : list conn) : nat := connectedness_from cs false.
 (* ---- addresses -------------------------------------------------------------- *)
 (* An address is a number 4*id + class; class 0 = dialable by a non-proxy
    transport, 1 = relay (/p2p-circuit) address, dialled by the transport
-   registered for P_CIRCUIT whose Proxy() is true, 2 = no transport. *)
+   registered for P_CIRCUIT whose Proxy() is true, 2 = no transport,
+   3 = a /dnsaddr address that has to be resolved first. *)
 Definition addr := nat.
 Definition a_cls (a : addr) : nat := Nat.modulo a 4.
 Definition is_relay (a : addr) : bool := Nat.eqb (a_cls a) 1.
@@ -86,10 +87,24 @@ Fixpoint insert_sorted (a : nat) (l : list nat) : list nat :=
 (* ma.Unique + the harness' ranker (ascending, no delays) *)
 Definition sort_uniq (l : list nat) : list nat := fold_right insert_sorted [] l.
 
-(* addrsForDial: filterKnownUndialables (no transport) and, under
-   force-direct, ma.FilterAddrs(goodAddrs, s.nonProxyAddr) *)
+(* resolveAddrs: a /dnsaddr address (class 3) is replaced by what its TXT
+   records resolve to.  The harness' resolver is this fixed function of the
+   address id: a direct address, a relay address, or both. *)
+Definition resolve_addr (a : addr) : list addr :=
+  if Nat.eqb (a_cls a) 3 then
+    let i := Nat.div a 4 in
+    match Nat.modulo i 3 with
+    | 0 => [4 * (i + 8)]
+    | 1 => [4 * (i + 8) + 1]
+    | _ => [4 * (i + 8); 4 * (i + 8) + 1]
+    end
+  else [a].
+
+(* addrsForDial: resolveAddrs, ma.Unique, filterKnownUndialables (no
+   transport) and THEN, under force-direct, ma.FilterAddrs(goodAddrs,
+   s.nonProxyAddr) — the filter sees the resolved addresses *)
 Definition addrs_for_dial (force : bool) (peer_addrs : list addr) : list addr :=
-  filter (fun a => dialable a && negb (force && is_relay a)) (sort_uniq peer_addrs).
+  filter (fun a => dialable a && negb (force && is_relay a)) (sort_uniq (flat_map resolve_addr peer_addrs)).
 
 (* ---- calls ------------------------------------------------------------------ *)
 Inductive result := ROk (c : nat) | RErr (e : nat).
